@@ -982,3 +982,40 @@ Proof.
     unfold set_inskip. cbn [m_stk m_glob m_buf m_inskip m_skipd]. apply skip_value.
   - rewrite run_cons, (on_key_obj true S junk top md k stk glob buf Hof). unfold lookup_member. rewrite Hf. reflexivity.
 Qed.
+
+(* ------------------------------------------------------------------ the strict leaf test is no hidden hypothesis for integers:
+   for every integer kind, every plain integer lexeme in the range of the kind that sonic delivers through OnInt64
+   (|z| < 2^63) passes it — the Go conversions int32(v), uint32(v), uint64(v) are the identity there, zig-zag and fixed
+   widths are chosen by the kind on both sides *)
+Lemma int_kind_cases k : is_int_kind k = true -> In k [3;4;5;6;7;13;15;16;17;18].
+Proof. unfold is_int_kind. rewrite !orb_true_iff, !Z.eqb_eq. cbn [In]. intuition. Qed.
+
+Lemma to_s32_id z : in_sb 32 z = true -> to_s 32 z = z.
+Proof.
+  unfold in_sb, to_s. rewrite andb_true_iff, Z.leb_le, Z.ltb_lt. intros [H1 H2].
+  change (2 ^ (32 - 1)) with 2147483648 in *. change (2 ^ 32) with 4294967296.
+  rewrite Z.mod_small by lia. lia.
+Qed.
+
+Lemma goconv_id k z : is_int_kind k = true -> scalar_okb k z = true -> goconv k z = z.
+Proof.
+  intros Hk Ho. apply int_kind_cases in Hk. cbn [In] in Hk.
+  repeat (destruct Hk as [Hk|Hk]; [subst k; cbn in Ho; unfold goconv; cbn [Z.eqb Pos.eqb orb];
+    try reflexivity;
+    try (apply to_s32_id; exact Ho);
+    try (unfold in_ub in Ho; apply andb_true_iff in Ho; destruct Ho as [H1 H2]; apply Z.leb_le in H1; apply Z.ltb_lt in H2;
+         apply Z.mod_small; split; assumption)|]).
+  contradiction.
+Qed.
+
+Theorem int_leaf_agrees k lex z :
+  is_int_kind k = true -> lex_is_plain_int lex = true -> parse_int lex = Some z ->
+  scalar_okb k z = true -> in_sb 64 z = true ->
+  leaf_agrees true k (EvNum lex) (LScalar z) = true.
+Proof.
+  intros Hk Hp Hz Ho H64. unfold leaf_agrees. cbn [negb orb scalar_payload is_str_ev].
+  unfold num_class. rewrite Hp, Hz, H64, Hk. rewrite (goconv_id k z Hk Ho).
+  cbn [leaf_bytes leaf_wt]. rewrite bytes_eqb_refl. cbn [andb Bool.eqb].
+  apply int_kind_cases in Hk. cbn [In] in Hk.
+  repeat (destruct Hk as [Hk|Hk]; [subst k; reflexivity|]). contradiction.
+Qed.
